@@ -311,22 +311,50 @@ def rules(rep, m):
     # R-C20-5 ------------------------------------------------------------
     r5 = rep.rule("R-C20-5", "chunk list: the slot written for a new chunk is dominated by the capacity test that grows the "
                   "list (length in elements, allocation in bytes); terminate frees every chunk and the list", floor=2)
-    grow = None
-    for x in walk(ex.body):
-        if x["kind"] == "IfStmt":
-            c = ex_x.canon(kids(x)[0])
-            if re.fullmatch(r"\(\+\+%s->chunk_list_cnt (==|>=) %s->chunk_list_len\)" % (mp, mp), c) or \
-                    re.fullmatch(r"\(%s->chunk_list_cnt\+\+ (==|>=) %s->chunk_list_len\)" % (mp, mp), c) or \
-                    re.fullmatch(r"\(%s->chunk_list_cnt (==|>=) %s->chunk_list_len\)" % (mp, mp), c):
-                if any(y["kind"] == "CallExpr" and callee_ref(y) in ("cmi_realloc", "realloc") for y in walk(kids(x)[1])):
-                    grow = x
-    slot = [(ex_x.canon(l), n_) for l, r, k, n_ in inv.stores(ex) if "chunk_list[" in ex_x.canon(l)]
-    r5.instance("grow test %s; slot store %s" % (ex_x.canon(kids(grow)[0]) if grow else None, [s[0] for s in slot]))
-    okg = grow is not None and len(slot) == 1 and slot[0][0] == "%s->chunk_list[(%s->chunk_list_cnt - 1)]" % (mp, mp) and \
-        (inv.stmt_index_containing(ex, grow) or 99) < (inv.stmt_index_containing(ex, slot[0][1]) or 0)
+    # engine LSE: with cnt < len on entry (established by initialize: 0 < CHUNK_LIST_SIZE, and re-established by every
+    # expansion), every path through expand writes a slot index in [0, len') where len' is the length after a possible
+    # growth, leaves cnt' < len', and the growth is a realloc to len' elements
+    from ..engines.lse import LSE
+    from ..engines.induct import Poly, Facts
+    cntk, lenk = "%s->chunk_list_cnt" % mp, "%s->chunk_list_len" % mp
+    entry = Facts().add_le0(Poly.sym("c").scale(-1), "cnt >= 0").add_le0(Poly.sym("c") + Poly.const(1) - Poly.sym("L"), "cnt < len on entry")
+    eng = LSE(ex_x, {cntk: "c", lenk: "L"}, entry)
+    slots = []
+    eng.on_store = lambda p_, base, idx, node: slots.append((p_, base, idx, node, dict(p_.state), p_.facts)) if base.endswith("chunk_list") else None
+    # the static-pool branch re-initialises the pool (cnt = 0, len = CHUNK_LIST_SIZE): analyse from after it
+    top_ = kids(ex.body)
+    start = 0
+    for i_, s_ in enumerate(top_):
+        if s_["kind"] == "IfStmt" and any(callee_ref(y) == "cmi_mempool_initialize" for y in walk(s_) if y["kind"] == "CallExpr"):
+            start = i_ + 1
+    paths = eng.run(top_[start:])
+    r5.instance("expand: %d path(s), %d slot store(s)" % (len(paths), len(slots)))
+    okg = bool(slots)
+    why = "no store into the chunk list found"
+    for p_, base, idx, node, st_, facts_ in slots:
+        if idx is None:
+            okg, why = False, "the slot index is not a linear function of the count"
+            continue
+        lo = facts_.proves_le0(idx.scale(-1))
+        # the length that the list has at the time of the store is the current value of len on this path
+        hi = facts_.proves_le0(idx + Poly.const(1) - st_[lenk])
+        if not (lo and hi):
+            okg, why = False, "slot index %s is not provably below the list length %s (%s)" % (idx.show(), st_[lenk].show(), "; ".join(facts_.notes))
+    for p_ in paths:
+        if not p_.facts.proves_le0(p_.state[cntk] + Poly.const(1) - p_.state[lenk]):
+            okg, why = False, "after expand cnt = %s is not provably below len = %s: the next expansion would write beyond the list" % (
+                p_.state[cntk].show(), p_.state[lenk].show())
+        if not (p_.state[cntk] - Poly.sym("c") == Poly.const(1)):
+            okg, why = False, "the chunk count changes by %s per expansion" % (p_.state[cntk] - Poly.sym("c")).show()
+    # a path on which len grows must reallocate the list with the new length (in elements * sizeof)
+    grew = [p_ for p_ in paths if not (p_.state[lenk] - Poly.sym("L") == Poly())]
+    reallocs = [c_ for c_ in walk(ex.body) if c_["kind"] == "CallExpr" and callee_ref(c_) in ("cmi_realloc", "realloc")]
+    if grew and not reallocs:
+        okg, why = False, "the length grows without a reallocation of the list"
+    rep.sample({"rule": "R-C20-5", "paths": [{"cnt": p_.state[cntk].show(), "len": p_.state[lenk].show(), "facts": p_.facts.notes} for p_ in paths]})
     if not okg:
-        rep.finding(r5, ex.name, "chunk-list:bounds", "the chunk list slot written is not dominated by a test that grows the "
-                    "list when it is full", where=m.rel(ex.where))
+        rep.finding(r5, ex.name, "chunk-list:bounds", "the chunk list slot written is not provably inside the list on every path: "
+                    "%s" % why, where=m.rel(ex.where))
         r5.fail()
     else:
         r5.ok()
